@@ -322,7 +322,7 @@ def run_others():
                 pass
         solve.fact('others:fd_weights/fd_derivative-length-guards-raise-ValueError', not bad, note=str(bad))
         bad = []
-        for path in ['xyz', 'Spiral', 'RADIAL', 'circle', 's']:
+        for path in ['xyz', 'Spiral', 'RADIAL', 'circle', 's', 'straight', 'random', 'ray', 'radial ', ' spiral', 'spiral2', 'r', '', None, 5]:
             try:
                 lm.CStepGenerator(path=path); bad.append(path)
             except ValueError:
